@@ -4,6 +4,9 @@ open Lean
 namespace Pybtex.Drv.C13
 open Pybtex.Uni
 
+/-- the key normaliser the driver runs the model and the reference with: `str.lower()` on whole strings -/
+abbrev norm : Str → Str := lowerPy
+
 def parsePairs (l : List Json) : Except String (List (Str × Int)) :=
   l.mapM fun p => do
     let a ← p.getArr?
@@ -21,6 +24,9 @@ def parseOp (j : Json) : Except String (Op Int) := do
   | "len" => pure .len
   | "iter" => pure .iter
   | "items" => pure .items
+  | "keys" => pure .keys
+  | "values" => pure .values
+  | "bool" => pure .truth
   | "getD" => pure (.getD (← getStr j "k") (← getInt j "v"))
   | "setdefault" => pure (.setDefault (← getStr j "k") (← getInt j "v"))
   | "pop" => pure (.pop (← getStr j "k"))
@@ -29,7 +35,9 @@ def parseOp (j : Json) : Except String (Op Int) := do
   | "update" => pure (.update (← parsePairs (← getArr j "ps")))
   | "lower" => pure .lower
   | "clear" => pure .clear
-  | "getdefault" => pure (.getDefault (← getStr j "k") (← getInt j "v"))
+  | "incr" => do
+    let n ← getInt j "v"
+    pure (.modify (← getStr j "k") (· + n))   -- `d[k] += n`
   | _ => throw s!"unknown cimap op {o}"
 
 def itemsJ (l : List (Str × Int)) : Json := arr (l.map fun p => arr [strToJson p.1, int p.2])
@@ -42,32 +50,56 @@ def resJ : Res Int → Json
   | .nat n => nat n
   | .keys l => strs l
   | .items l => itemsJ l
+  | .vals l => arr (l.map int)
   | .pair k v => arr [strToJson k, int v]
 
-def snapModel (pr : List Str) (d : CIDict Int) (r : Json) : Json :=
-  obj [("res", r), ("items", optJ itemsJ (CIDict.items d)), ("keys", strs (CIDict.iter d)), ("len", nat (CIDict.len d)),
-       ("has", arr (pr.map fun k => Json.bool (CIDict.contains d k))), ("repr_ok", Json.bool true)]
+/-- a view that raised `KeyError` is `null` in a snapshot -/
+def viewJ : Res Int → Json
+  | .keyError => Json.null
+  | r => resJ r
 
-def snapSpec (pr : List Str) (m : OMap Int) (r : Json) : Json :=
-  obj [("res", r), ("items", itemsJ (OMap.items m)), ("keys", strs (OMap.keys m)), ("len", nat m.length),
-       ("has", arr (pr.map fun k => Json.bool (OMap.has m k))), ("repr_ok", Json.bool true)]
+/-- the observations taken after every step, each through the corresponding operation of `stepF` -/
+def snap {S : Type} (stepF : S → Op Int → S × Res Int) (pr : List Str) (d : S) (r : Json) : Json :=
+  obj [("res", r),
+       ("items", viewJ (stepF d .items).2),
+       ("keys", resJ (stepF d .iter).2),
+       ("keys_view", resJ (stepF d .keys).2),
+       ("values", viewJ (stepF d .values).2),
+       ("bool", resJ (stepF d .truth).2),
+       ("len", resJ (stepF d .len).2),
+       ("has", arr (pr.map fun k => resJ (stepF d (.contains k)).2)),
+       ("repr_ok", Json.bool true)]
 
-def runModel (pr : List Str) (d : CIDict Int) : List (Op Int) → List Json
+def runWith {S : Type} (stepF : S → Op Int → S × Res Int) (pr : List Str) (d : S) : List (Op Int) → List Json
   | [] => []
-  | op :: ops => let r := CIDict.step d op; snapModel pr r.1 (resJ r.2) :: runModel pr r.1 ops
+  | op :: ops => let r := stepF d op; snap stepF pr r.1 (resJ r.2) :: runWith stepF pr r.1 ops
 
-def runSpec (pr : List Str) (m : OMap Int) : List (Op Int) → List Json
-  | [] => []
-  | op :: ops => let r := OMap.step m op; snapSpec pr r.1 (resJ r.2) :: runSpec pr r.1 ops
+/-- optional request field `tail`: report only the last `tail` snapshots (the exhaustive families check every prefix as a case of its own) -/
+def keepTail (j : Json) (l : List Json) : List Json :=
+  match j.getObjVal? "tail" with
+  | .ok t => match t.getNat? with
+    | .ok n => l.drop (l.length - n)
+    | .error _ => l
+  | .error _ => l
 
 def cimap (j : Json) : Except String Json := do
   let init ← parsePairs (← getArr j "init")
   let ops ← (← getArr j "ops").mapM parseOp
   let pr ← getStrList j "probe"
-  let d := CIDict.ofPairs init
-  let m := OMap.ofPairs init
-  pure (obj [("out", arr (snapModel pr d Json.null :: runModel pr d ops)),
-             ("spec", arr (snapSpec pr m Json.null :: runSpec pr m ops))])
+  let cls ← (← j.getObjVal? "cls").getStr?
+  let d := CIDict.ofPairs norm init
+  let m := OMap.ofPairs norm init
+  if cls == "ddict" then
+    -- CaseInsensitiveDefaultDict(int): factory value 0; `init` was written with `d[k] = v`
+    let f := CIDict.DD.step norm (0 : Int)
+    let g := OMap.stepD norm (0 : Int)
+    pure (obj [("out", arr (keepTail j (snap f pr d Json.null :: runWith f pr d ops))),
+               ("spec", arr (keepTail j (snap g pr m Json.null :: runWith g pr m ops)))])
+  else
+    let f := CIDict.step (V := Int) norm
+    let g := OMap.step (V := Int) norm
+    pure (obj [("out", arr (keepTail j (snap f pr d Json.null :: runWith f pr d ops))),
+               ("spec", arr (keepTail j (snap g pr m Json.null :: runWith g pr m ops)))])
 
 /-! set -/
 def parseSOp (j : Json) : Except String SOp := do
@@ -79,6 +111,13 @@ def parseSOp (j : Json) : Except String SOp := do
   | "contains" => pure (.contains (← getStr j "k"))
   | "canonical" => pure (.canonical (← getStr j "k"))
   | "lower" => pure .lower
+  | "len" => pure .len
+  | "iter" => pure .iter
+  | "bool" => pure .truth
+  | "pop" => pure (.pop (← getStr j "choice"))
+  | "clear" => pure .clear
+  | "ior" => pure (.ior (← getStrList j "l"))
+  | "isub" => pure (.isub (← getStrList j "l"))
   | _ => throw s!"unknown ciset op {o}"
 
 def sresJ : SRes → Json
@@ -86,35 +125,39 @@ def sresJ : SRes → Json
   | .keyError => Json.str "KeyError"
   | .bool b => Json.bool b
   | .str s => strToJson s
+  | .nat n => nat n
+  | .strs l => strs l
+  | .badChoice => Json.str "NOT-A-MEMBER"
 
-def sstep (s : CISet) (op : SOp) : CISet × Json := let r := s.step op; (r.1, sresJ r.2)
-def sstepSpec (s : OSet) (op : SOp) : OSet × Json := let r := s.step op; (r.1, sresJ r.2)
+def ssnap {S : Type} (stepF : S → SOp → S × SRes) (spell : S → List Str) (pr : List Str) (s : S) (r : Json) : Json :=
+  obj [("res", r), ("iter", sresJ (stepF s .iter).2), ("spellings", strs (spell s)), ("len", sresJ (stepF s .len).2),
+       ("bool", sresJ (stepF s .truth).2),
+       ("has", arr (pr.map fun k => sresJ (stepF s (.contains k)).2)), ("repr_ok", Json.bool true)]
 
-def ssnap (pr : List Str) (s : CISet) (r : Json) : Json :=
-  obj [("res", r), ("iter", strs s.iter), ("spellings", strs s.spellings), ("len", nat s.len),
-       ("has", arr (pr.map fun k => Json.bool (s.contains k))), ("repr_ok", Json.bool true)]
-def ssnapSpec (pr : List Str) (s : OSet) (r : Json) : Json :=
-  obj [("res", r), ("iter", strs (s.map (·.1))), ("spellings", strs (s.map (·.2))), ("len", nat s.length),
-       ("has", arr (pr.map fun k => Json.bool (s.has k))), ("repr_ok", Json.bool true)]
-
-def srun (pr : List Str) (s : CISet) : List SOp → List Json
+def srunWith {S : Type} (stepF : S → SOp → S × SRes) (spell : S → List Str) (pr : List Str) (s : S) : List SOp → List Json
   | [] => []
-  | op :: ops => let r := sstep s op; ssnap pr r.1 r.2 :: srun pr r.1 ops
-def srunSpec (pr : List Str) (s : OSet) : List SOp → List Json
-  | [] => []
-  | op :: ops => let r := sstepSpec s op; ssnapSpec pr r.1 r.2 :: srunSpec pr r.1 ops
+  | op :: ops => let r := stepF s op; ssnap stepF spell pr r.1 (sresJ r.2) :: srunWith stepF spell pr r.1 ops
 
 def ciset (j : Json) : Except String Json := do
   let init ← getStrList j "init"
   let ops ← (← getArr j "ops").mapM parseSOp
   let pr ← getStrList j "probe"
-  let s := CISet.ofList init
-  let m : OSet := init.foldl OSet.add []
-  pure (obj [("out", arr (ssnap pr s Json.null :: srun pr s ops)),
-             ("spec", arr (ssnapSpec pr m Json.null :: srunSpec pr m ops))])
+  let s := CISet.ofList norm init
+  let m : OSet := init.foldl (OSet.add norm) []
+  let f := CISet.step norm
+  let g := OSet.step norm
+  let sp1 : CISet → List Str := CISet.spellings
+  let sp2 : OSet → List Str := fun s => s.map (·.2)
+  pure (obj [("out", arr (keepTail j (ssnap f sp1 pr s Json.null :: srunWith f sp1 pr s ops))),
+             ("spec", arr (keepTail j (ssnap g sp2 pr m Json.null :: srunWith g sp2 pr m ops)))])
+
+/-- `str.lower()` as the model has it (lets the harness compare the normaliser itself with the interpreter) -/
+def lowerOp (j : Json) : Except String Json := do
+  let l ← getStrList j "ss"
+  pure (obj [("out", strs (l.map norm))])
 
 end Pybtex.Drv.C13
 
 namespace Pybtex.Drv.C13
-def handlers : List (String × (Json → Except String Json)) := [("cimap", cimap), ("ciset", ciset)]
+def handlers : List (String × (Json → Except String Json)) := [("cimap", cimap), ("ciset", ciset), ("cilower", lowerOp)]
 end Pybtex.Drv.C13
